@@ -191,3 +191,19 @@ Definition rt_constrain (k x : Z) : nat * Z := if x <? k then (0%nat, x) else (1
 (* bounded_int_trim_min/max: arm 0 if x is the trimmed bound, else arm 1 with x *)
 Definition rt_trim (bound x : Z) : nat * option Z :=
   if x =? bound then (0%nat, None) else (1%nat, Some x).
+
+(* ---------- conversions at the trait level ---------- *)
+Inductive ckind := KInto | KTryInto | KNz | KDowncast.
+Definition is_felt' (T : ity) := match T with Felt => true | _ => false end.
+(* x is the run-time value of the source (felt252: in [0,P)) *)
+Definition rt_cast (k : ckind) (From To : ity) (x : Z) : rres :=
+  match k with
+  | KInto => Ok (RInt (rt_upcast (is_felt' To) x))
+  | KTryInto =>
+      Ok (ROpt (if is_felt' From then rt_from_felt (rng To) x else rt_downcast (rng To) x))
+  | KNz => Ok (ROpt (if rt_is_zero x then None else Some x))
+  | KDowncast =>
+      (* same meaning as TryInto: from felt252 the signed reading is used (Sierra's felt252 range is
+         symmetric around 0), e.g. downcast::<felt252, i8>(-1) = Some(-1) *)
+      Ok (ROpt (if is_felt' From then rt_from_felt (rng To) x else rt_downcast (rng To) x))
+  end.
